@@ -149,7 +149,9 @@ def hlCmd (args : List String) : String :=
     -- specification: names hash equal iff same name set; values hash equal iff same label set
     let sn := if a.sorted.map (·.1) == b.sorted.map (·.1) then "same" else "diff"
     let sv := if a.sorted == b.sorted then "same" else "diff"
-    s!"N={n} V={v}" ++ (if n == sn && v == sv then "" else "\thash:none:spec says N={sn} V={sv}")
+    -- the 64-bit hashes themselves, compared bit for bit with Registry.HashLabels
+    let hx := fun (l : Labels) => s!"{hex64 (UInt64.ofNat (namesHash l).toNat)}/{hex64 (UInt64.ofNat (valuesHash l).toNat)}"
+    s!"N={n} V={v} A={hx a} B={hx b}" ++ (if n == sn && v == sv then "" else "\thash:none:spec says N={sn} V={sv}")
   | _ => "bad-op"
 
 def rdPre : Rd (Bytes × MType × Bytes) := do
